@@ -947,7 +947,7 @@ func c14ProgramsScenario(c *vx.Check, extra map[string]interface{}) vx.Part {
 	e := c14TheEnv
 	s := &c14Search{e: e, ops: e.buildOps(), depth: 3, fullUpTo: 1}
 	if c.Thorough() {
-		s.depth, s.fullUpTo, s.allRootsFull, s.thorough = 5, 1, true, true
+		s.depth, s.fullUpTo, s.allRootsFull, s.thorough = 4, 1, true, true
 	}
 	if v := os.Getenv("VERIF_C14_DEPTH"); v != "" {
 		fmt.Sscan(v, &s.depth)
